@@ -167,7 +167,183 @@ static void op_ep_map_rnd(int argc, char **argv) {
 	run_ep_map("rnd", msg, len);
 }
 
+
+/* ------------------------------------------------------------------------------------------------------------------ */
+#ifdef WITH_EB
+#include "relic_eb.h"
+
+static void fb_sprint(char *dst, const fb_t a) {
+	int p = 0;
+	for (int i = RLC_FB_DIGS - 1; i >= 0; i--) p += sprintf(dst + p, "%0*llx", RLC_DIG / 4, (unsigned long long)a[i]);
+	dst[p] = 0;
+	char *s = dst; while (*s == '0' && s[1]) s++;
+	memmove(dst, s, strlen(s) + 1);
+}
+
+static void eb_sprint(char *dst, size_t cap, const eb_t p) {
+	if (eb_is_infty(p)) { snprintf(dst, cap, "inf"); return; }
+	eb_t t; eb_null(t); eb_new(t);
+	eb_norm(t, p);
+	char bx[RLC_FB_DIGS * 16 + 2], by[RLC_FB_DIGS * 16 + 2];
+	fb_sprint(bx, t->x); fb_sprint(by, t->y);
+	snprintf(dst, cap, "%s,%s", bx, by);
+}
+
+/* eb_map_param <id> : y^2 + xy = x^3 + a x^2 + b over GF(2)[z]/f; field elements as the integer of their bit pattern */
+static void op_eb_map_param(int argc, char **argv) {
+	if (argc < 2) { fprintf(OUT, "bad-args\n"); return; }
+	int id = parse_int(argv[1]);
+	volatile int caught = 0;
+	RLC_TRY { eb_param_set(id); } RLC_CATCH_ANY { caught = 1; }
+	if (take_err() || caught) { fprintf(OUT, "err\n"); return; }
+	char b[RLC_FB_DIGS * 16 + 2];
+	eb_t g; bn_t n, h; eb_null(g); eb_new(g); bn_null(n); bn_new(n); bn_null(h); bn_new(h);
+	eb_curve_get_gen(g); eb_curve_get_ord(n); eb_curve_get_cof(h);
+	fprintf(OUT, "eb_map_param id=%d m=%d", id, (int)RLC_FB_BITS);
+	/* the reduction polynomial: bit m and the low terms */
+	{
+		dig_t f[RLC_FB_DIGS + 1]; memset(f, 0, sizeof(f));
+		memcpy(f, fb_poly_get(), RLC_FB_DIGS * sizeof(dig_t));
+		fprintf(OUT, " f="); raw_print(f, RLC_FB_DIGS, 0);
+	}
+	fb_sprint(b, eb_curve_get_a()); fprintf(OUT, " a=%s", b);
+	fb_sprint(b, eb_curve_get_b()); fprintf(OUT, " b=%s", b);
+	fb_sprint(b, g->x); fprintf(OUT, " gx=%s", b);
+	fb_sprint(b, g->y); fprintf(OUT, " gy=%s", b);
+	fprintf(OUT, " n="); raw_print(n->dp, n->used, 0);
+	fprintf(OUT, " h="); raw_print(h->dp, h->used, 0);
+	fprintf(OUT, " kbltz=%d mdlen=%d fbbytes=%d\n", eb_curve_is_kbltz(), (int)RLC_MD_LEN, (int)RLC_FB_BYTES);
+}
+
+static void eval_eb_map(const uint8_t *msg, size_t len, int pat, char *out, size_t cap) {
+	volatile int caught = 0;
+	eb_t p; eb_null(p); eb_new(p);
+	memset(p->x, pat, sizeof(fb_st)); memset(p->y, pat ^ 0x5a, sizeof(fb_st)); memset(p->z, pat ^ 0xa5, sizeof(fb_st));
+	scribble(pat);
+	RLC_TRY { eb_map(p, msg, len); } RLC_CATCH_ANY { caught = 1; }
+	if (take_err() || caught) snprintf(out, cap, "err"); else eb_sprint(out, cap, p);
+}
+
+/* eb_map <msg> */
+static void op_eb_map(int argc, char **argv) {
+	if (argc < 2) { fprintf(OUT, "bad-args\n"); return; }
+	static uint8_t msg[MSGMAX];
+	static char r1[1024], r2[1024];
+	uint8_t drain[7];
+	int len = bytes_parse(msg, sizeof(msg), argv[1]);
+	eval_eb_map(msg, len, 0x00, r1, sizeof(r1));
+	RLC_TRY { rand_bytes(drain, sizeof(drain)); } RLC_CATCH_ANY { }
+	take_err();
+	eval_eb_map(msg, len, 0xC3, r2, sizeof(r2));
+	fprintf(OUT, "%s", r1);
+	if (strcmp(r1, r2)) fprintf(OUT, " NONDET(%s)", r2);
+	fputc('\n', OUT);
+}
+#define EB_MAP_OPS {"eb_map_param", op_eb_map_param}, {"eb_map", op_eb_map},
+#else
+#define EB_MAP_OPS
+#endif
+
+
+/* ------------------------------------------------------------------------------------------------------------------ */
+#if defined(WITH_ED) && FP_PRIME == 255
+#include "relic_ed.h"
+
+static void fp_sprint_val(char *dst, size_t cap, const fp_t a) {
+	FILE *save = OUT; char *mem = NULL; size_t msz = 0;
+	OUT = open_memstream(&mem, &msz);
+	fp_print_val(a);
+	fclose(OUT); OUT = save;
+	snprintf(dst, cap, "%s", mem);
+	free(mem);
+}
+
+static void ed_sprint(char *dst, size_t cap, const ed_t p) {
+	ed_t t; ed_null(t); ed_new(t);
+	ed_norm(t, p);
+	char bx[160], by[160];
+	fp_sprint_val(bx, sizeof(bx), t->x); fp_sprint_val(by, sizeof(by), t->y);
+	snprintf(dst, cap, "%s,%s", bx, by);
+}
+
+/* ed_map_param <id> : a x^2 + y^2 = 1 + d x^2 y^2 */
+static void op_ed_map_param(int argc, char **argv) {
+	if (argc < 2) { fprintf(OUT, "bad-args\n"); return; }
+	int id = parse_int(argv[1]);
+	volatile int caught = 0;
+	RLC_TRY { ed_param_set(id); } RLC_CATCH_ANY { caught = 1; }
+	if (take_err() || caught) { fprintf(OUT, "err\n"); return; }
+	ctx_t *ctx = core_get();
+	ed_t g; bn_t n, h; ed_null(g); ed_new(g); bn_null(n); bn_new(n); bn_null(h); bn_new(h);
+	ed_curve_get_gen(g); ed_curve_get_ord(n); ed_curve_get_cof(h);
+	ed_norm(g, g);
+	fprintf(OUT, "ed_map_param id=%d p=", id);
+	raw_print(fp_prime_get(), RLC_FP_DIGS, 0);
+	fprintf(OUT, " a="); fp_print_val(ctx->ed_a);
+	fprintf(OUT, " d="); fp_print_val(ctx->ed_d);
+	fprintf(OUT, " gx="); fp_print_val(g->x); fprintf(OUT, " gy="); fp_print_val(g->y);
+	fprintf(OUT, " n="); raw_print(n->dp, n->used, 0);
+	fprintf(OUT, " h="); raw_print(h->dp, h->used, 0);
+	fprintf(OUT, " level=%d fpbits=%d", ed_param_level(), (int)FP_PRIME);
+	for (int i = 0; i < 4; i++) { fprintf(OUT, " c%d=", i); fp_print_val(ctx->ed_map_c[i]); }
+	fputc('\n', OUT);
+}
+
+static void eval_ed_map(int withdst, const uint8_t *msg, size_t len, const uint8_t *dst, size_t dlen, int pat, char *out, size_t cap) {
+	volatile int caught = 0;
+	ed_t p; ed_null(p); ed_new(p);
+	memset(p, pat, sizeof(ed_st));
+	p->coord = BASIC;
+	scribble(pat);
+	RLC_TRY { if (withdst) ed_map_dst(p, msg, len, dst, dlen); else ed_map(p, msg, len); } RLC_CATCH_ANY { caught = 1; }
+	if (take_err() || caught) snprintf(out, cap, "err"); else ed_sprint(out, cap, p);
+}
+
+/* ed_map <msg> ; ed_map_dst <msg> <dst> */
+static void op_ed_map(int argc, char **argv) {
+	int withdst = !strcmp(argv[0], "ed_map_dst");
+	if (argc < 2 + withdst) { fprintf(OUT, "bad-args\n"); return; }
+	static uint8_t msg[MSGMAX], dst[MSGMAX];
+	static char r1[1024], r2[1024];
+	uint8_t drain[7];
+	int len = bytes_parse(msg, sizeof(msg), argv[1]);
+	int dlen = withdst ? bytes_parse(dst, sizeof(dst), argv[2]) : 0;
+	eval_ed_map(withdst, msg, len, dst, dlen, 0x00, r1, sizeof(r1));
+	RLC_TRY { rand_bytes(drain, sizeof(drain)); } RLC_CATCH_ANY { }
+	take_err();
+	eval_ed_map(withdst, msg, len, dst, dlen, 0xC3, r2, sizeof(r2));
+	fprintf(OUT, "%s", r1);
+	if (strcmp(r1, r2)) fprintf(OUT, " NONDET(%s)", r2);
+	fputc('\n', OUT);
+}
+/* ed_ell2 <u> : the map from a field element (exported by the library, not declared in its headers) */
+void ed_map_ell2_5mod8(ed_t p, fp_t t);
+static void op_ed_ell2(int argc, char **argv) {
+	if (argc < 2) { fprintf(OUT, "bad-args\n"); return; }
+	static char r[2][1024];
+	for (int k = 0; k < 2; k++) {
+		volatile int caught = 0;
+		raw_t rr; bn_t t; fp_t u; ed_t p;
+		bn_null(t); bn_new(t); fp_null(u); fp_new(u); ed_null(p); ed_new(p);
+		raw_parse(&rr, argv[1]); raw_to_bn(t, &rr);
+		if (bn_is_zero(t)) fp_zero(u); else fp_prime_conv(u, t);
+		memset(p, k ? 0xC3 : 0x00, sizeof(ed_st));
+		scribble(k ? 0xC3 : 0x00);
+		RLC_TRY { ed_map_ell2_5mod8(p, u); } RLC_CATCH_ANY { caught = 1; }
+		if (take_err() || caught) snprintf(r[k], sizeof(r[k]), "err"); else ed_sprint(r[k], sizeof(r[k]), p);
+	}
+	fprintf(OUT, "%s", r[0]);
+	if (strcmp(r[0], r[1])) fprintf(OUT, " NONDET(%s)", r[1]);
+	fputc('\n', OUT);
+}
+#define ED_MAP_OPS {"ed_map_param", op_ed_map_param}, {"ed_map", op_ed_map}, {"ed_map_dst", op_ed_map}, {"ed_ell2", op_ed_ell2},
+#else
+#define ED_MAP_OPS
+#endif
+
 const op_t ops_map[] = {
 	{"ep_map_param", op_ep_map_param}, {"ep_map", op_ep_map}, {"ep_map_rnd", op_ep_map_rnd},
+	EB_MAP_OPS
+	ED_MAP_OPS
 	{NULL, NULL}
 };
